@@ -21,12 +21,22 @@ MANIFEST = {
             "for the transcribed operators (all but == != .== .!=) and the built-ins map filter reduce every some abs floor ceil trunc "
             "sqrt typeof arity to_bool ugt ult ugte ulte any all; corollaries: emission equivalence for closures capturing closures to "
             "any depth with first-order results equal and function results related, re-emission chains related to the original; "
-            "PARTIAL: the other arms of builtin_full, NaN / both-quote captured data (C05_all_builtins_rel_full kept as a Prop); the "
+            "REL round: the relation-respecting hypothesis is now PROVED for EVERY arm of EvalFull.builtin_full except unique / includes "
+            "(C05_all_builtins_rel_full_proved; proofs/RelPure.v: one relation-generic lemma per arm — aggregates, list/string/record "
+            "built-ins, convert round random to_number to_string join, sort_by group_by count_by —, proofs/EmitHOOpsFull.v), so the simulation "
+            "and the emission equivalence hold for bodies mentioning any built-in but those two (C05_ho_simulation_full, "
+            "C05_emit_equiv_higher_order_full); the exclusion is exact: unique / includes apply Value::equals to argument elements, refuted "
+            "in the model and reproduced on the implementation (C05_includes_function_equality_refuted, C05_unique_function_equality_refuted, "
+            "C05_all_builtins_unrestricted_refuted; finding F53), and exact with respect to the code: the excluded built-ins are "
+            "the arms of BuiltInFunction::call whose source text applies Value::equals (table coq/gen/ArmObservers.v regenerated on "
+            "every run, C05_equality_exclusion_matches_source); PARTIAL still: NaN / both-quote captured data; the "
             "original C05_full statement is REFUTED (function equality, finding F53); current-code defects are refuted lemmas.  EMIT correspondence: for generated "
             "functions x captured value pool the AST the real parser returns for the real emitted text, and the body of the "
             "real reloaded function, equal the model's inlined AST; behaviour original vs reloaded-in-fresh-session vs "
             "re-emitted-and-reloaded (chains of length 3) on the implementation and through the real CLI binary, incl. closures capturing "
-            "closures capturing closures and functions returned by reloaded functions and then called (capture-depth distribution in the evidence)",
+            "closures capturing closures and functions returned by reloaded functions and then called (capture-depth distribution in the evidence); "
+            "EMIT-FULLBI: bodies using the full built-in set over captured data / closures / lists of closures, law on the implementation and "
+            "the model run with the full dispatcher (coq/EmitRunFull.v)",
     "note": "trusted: Coq kernel + vm_compute; Emit.v / Eval.v transcriptions validated by the EMIT stream; the text layer "
             "(printer/parser round trip) is C07's and is exercised here only through the real parser; no axioms",
     "design_ref": "DESIGN.md section 6 C05; notes/C05.md",
@@ -173,6 +183,56 @@ def gen_cases(rng, tier):
         cases = keep
     return cases
 
+
+
+# --------------------------------------------------------------------------- generated table (REL round)
+def regen_arm_observers():
+    """coq/gen/ArmObservers.v — for every arm of BuiltInFunction::call (blots-core/src/functions.rs), read off its
+    SOURCE TEXT: does it apply Value::equals, does it apply Value::compare, does it call a function value
+    (FunctionDef::call).  Properties/C05.v proves that the arms applying Value::equals are exactly the built-ins that
+    the emission-equivalence theorems exclude (biok_full, finding F53); Properties/C02.v that the arms calling back /
+    comparing are the ones the renaming proofs treat as such."""
+    import re
+    path = os.path.join(c.REPO, "blots-core", "src", "functions.rs")
+    try:
+        src = open(path).read()
+        m = re.search(r"pub fn name\(&self\)[^{]*\{\s*match self \{(.*?)\n        \}", src, re.S)
+        names = dict(re.findall(r"Self::(\w+) => \"(\w+)\"", m.group(1)))
+        i = src.index("    pub fn call(\n        &self,\n        args: Vec<Value>")
+        j = src.index("\n        }\n    }\n", i)
+        body = src[src.index("        match self {\n", i):j]
+    except (OSError, ValueError, AttributeError) as e:
+        raise c.BrokenTie("translator regen_arm_observers: BuiltInFunction::name / ::call not found in functions.rs as expected", repr(e))
+    heads = list(re.finditer(r"^            ((?:Self::\w+)(?:\s*\|\s*Self::\w+)*) =>", body, re.M))
+    if not heads:
+        raise c.BrokenTie("translator regen_arm_observers: no match arms found in BuiltInFunction::call", body[:300])
+    arms = {}
+    for k, h_ in enumerate(heads):
+        text = body[h_.end():heads[k + 1].start() if k + 1 < len(heads) else len(body)]
+        text = re.sub(r"//[^\n]*", "", text)            # comments do not count
+        for variant in re.findall(r"Self::(\w+)", h_.group(1)):
+            arms[variant] = text
+    missing = sorted(set(names) - set(arms))
+    if missing:
+        raise c.BrokenTie("translator regen_arm_observers: variants without an arm in BuiltInFunction::call", ", ".join(missing))
+
+    def sel(pred):
+        got = sorted(names[v] for v, t in arms.items() if v in names and pred(t))
+        return " | ".join("B_" + n for n in got)
+    rows = [("src_applies_equals", lambda t: ".equals(" in t),
+            ("src_applies_compare", lambda t: ".compare(" in t),
+            ("src_calls_function", lambda t: re.search(r"\b(func_def|fd|function_def)\s*\.\s*call\(", t) is not None
+                                             or re.search(r"\.call\(\s*\*func\b", t) is not None)]
+    out = ["(* GENERATED by checks/c05.py:regen_arm_observers from the source text of BuiltInFunction::call",
+           "   (blots-core/src/functions.rs). Do not edit. *)", "From Coq Require Import Bool.",
+           "Require Import Blots.gen.Builtins.", ""]
+    for name, pred in rows:
+        pats = sel(pred)
+        out.append("Definition %s (b : builtin) : bool :=" % name)
+        out.append("  match b with %s_ => false end." % (pats + " => true | " if pats else ""))
+    out.append("Definition src_arm_count : nat := %d." % len(arms))
+    c.write_if_changed(os.path.join(c.GEN, "ArmObservers.v"), "\n".join(out) + "\n")
+    return {name: sel(pred) for name, pred in rows}
 
 # --------------------------------------------------------------------------- running
 def rust_emit(h, cases):
@@ -371,7 +431,7 @@ def _excuse(nan, esc, dosh, selfn, lossy0, lossy1, topnat, state, what):
 # `inputs` is an ordinary captured binding, so such a function is closed after capture and must carry the values
 # it saw to a fresh program that has OTHER inputs (round 4, seed C05-7: `inputs` left as a bare name on emission;
 # no in-process session of this check had a non-empty inputs record)
-INPUTS_JSON = '{"rate": 2, "fees": [1, 10], "tag": "a\\"b", "cfg": {"deep": [null, -0.5]}}'
+INPUTS_JSON = '{"rate": 2, "fees": [1, 10], "tag": "a\\"b", "cfg": {"deep": [null, -0.5]}, "if": 7, "return": [3, 4], "true": false}'
 INPUTS_PROGS = [
     ("f = x => x * inputs.rate + inputs.fees[1]", ["1", "2.5"]),
     ("f = x => [x, #rate, #fees, #tag, #cfg.deep, #missing]", ["0"]),
@@ -382,6 +442,12 @@ INPUTS_PROGS = [
     ("f = x => do {\n  r = #rate\n  return [r * x, keys(inputs)]\n}", ["3"]),
     ("mk = a => (x => [a, x, inputs.tag])\nf = mk(#fees)", ["1"]),
     ("f = x => map(inputs.fees, e => e * x + #rate)", ["2"]),
+    # fields spelled like reserved words: `#if` parses but `{..}.if` does not, so emission writes the index form
+    ("f = x => x * #if + #rate", ["5"]),
+    ("f = x => [#return, #true, #not, #output, x]", ["1"]),
+    ("f = x => #return[1] + x - #if!", ["1"]),
+    ("f = x => {\"if\": #if, r: #return, t: not #true}", ["0"]),
+    ("g = y => y + #if\nf = x => [g(x), (inputs => #if)({\"if\": x})]", ["2"]),
 ]
 
 
@@ -609,6 +675,113 @@ def main(argv):
             res.violation("blots prog1 | blots prog2 | blots prog2: the reloaded function gives different outputs",
                           {"kind": "cli-chain", "program": prog, "args": args, "prog1": o1, "prog2": o2,
                            "prog2_again": o3 if isinstance(o3, dict) else str(o3), "in_process_agrees": inproc})
+
+    # --- (iv) REL round: EMIT-FULLBI — bodies that use the built-ins the simulation now covers
+    # (Coq: C05_all_builtins_rel_full_proved, C05_emit_equiv_higher_order_full: every built-in but unique / includes):
+    # aggregates, list / string / record built-ins, convert round random to_number to_string join, and the
+    # callback-taking sort_by / group_by / count_by, over captured data, captured closures and lists of closures.
+    # Law on the implementation (original == reloaded == re-emitted == third), and the model run with the FULL
+    # dispatcher (coq/EmitRunFull.v) against the implementation.  unique / includes shapes are generated too and
+    # counted under F53 when function values are around.
+    FB_POOL = [("data", "k = [3, 1, 2]"), ("data", "k = {a: 1, b: [2, 3]}"), ("data", "k = \"b,a,c\""),
+               ("closure", "c0 = 2\nk = z => z * c0"), ("closure", "c0 = \"s\"\nh = z => to_string(z) + c0\nk = z => h(z)"),
+               ("closures", "c0 = 1\nk = [z => z + c0, z => z * 2, z => 0 - z]"),
+               ("closures", "mk = a => (y => y + a)\nk = [mk(1), mk(2), mk(1)]")]
+    FB_BODIES = ["sort_by(x, k)", "sort_by(k, z => 0 - z)", "group_by(x, z => to_string(k(z)))", "count_by(x, z => to_string(k(z)))",
+                 "map(sort_by(k, g => 0 - g(j)), g => g(1))", "head(sort_by(k, g => 0 - g(j)))", "values(group_by(k, g => to_string(g(j))))",
+                 "count_by(k, g => typeof(g))", "[sum(k), min(k), max(k), avg(k), prod(k), median(k), percentile(k, 50)]",
+                 "zip(k, x)", "chunk(k, 2)", "flatten([k, x])", "concat(k, x)", "reverse(k)", "slice(k, 0, 2)", "head(k)", "tail(k)",
+                 "len(k)", "keys(k)", "values(k)", "entries(k)", "split(k, \",\")", "replace(k, \",\", \"-\")",
+                 "join(sort(split(k, \",\")), \"+\")", "to_string(k)", "to_number(to_string(len(k)))", "round(avg(k) / 3, 2)",
+                 "dot(k, k)", "range(len(k))", "sort(k)", "sort(concat(k, x))", "convert(sum(k), \"km\", \"m\")", "random(len(k))",
+                 "map(x, k)", "filter(map(k, g => g(j)), n => n > 0)", "typeof(head(k))",
+                 "unique(k)", "includes(k, head(k))", "len(unique(concat(k, k)))", "includes(x, k)"]
+    FB_ARGS = ["[3, 1, 2]", "2", "[\"b\", \"a\"]", "[z => z + 1, 5]"]
+    fb_cases = [("fullbi/" + tag, program(defs, "x", body), FB_ARGS) for tag, defs in FB_POOL for body in FB_BODIES]
+    fb_rust = rust_emit(h, fb_cases)
+    fb_parsed = [fields(o) for o in fb_rust]
+    for (kind, prog, args), o in zip(fb_cases, fb_rust):
+        if o.startswith("PANIC") or o.startswith("ABORT"):
+            res.violation("emitting / reloading a function panicked or aborted",
+                          {"kind": "impl", "program": prog, "args": args, "observed": o[:300]})
+    fb = {"cases": len(fb_cases), "law_checked": 0, "law_ok": 0, "law_excused": {}, "law_violations": 0, "ok_results": 0,
+          "err_results": 0, "fn_results": 0, "by_pool": {}, "model_agree": 0, "model_skipped_unmodelled": 0, "model_mismatch": 0,
+          "model_eval_failed": 0, "bodies": len(FB_BODIES), "pool": len(FB_POOL), "args": len(FB_ARGS)}
+    try:
+        fb_reports = model_reports(fb_parsed, "c05fr")
+    except c.BrokenTie as e:
+        res.tie_broken(e.what, e.detail)
+        fb_reports = [None] * len(fb_cases)
+    fb_fail, fb_ok_idx = [], []
+    for i, ((kind, prog, args), d, rep) in enumerate(zip(fb_cases, fb_parsed, fb_reports)):
+        if "VAL" not in d or rep is None:
+            continue
+        bits = rep[1:10]
+        if bits[5] != "1" or d.get("PORT") != "1":
+            continue
+        ex = excuse(bits, state, "law", open_ids)
+        is_f53 = "F53" in open_ids and f52_class(prog, d["VAL"], args)
+        fb["by_pool"][kind] = fb["by_pool"].get(kind, 0) + 1
+        if ex is None and rep.split(" A1")[1][:4][want] == "1":
+            fb_ok_idx.append(i)
+        for a, r in zip(args, d["R"]):
+            fb["law_checked"] += 1
+            if r[0].startswith("OK"):
+                fb["ok_results"] += 1
+                nontrivial.add((prog, a))
+                if "FN(" in r[0]:
+                    fb["fn_results"] += 1
+            else:
+                fb["err_results"] += 1
+            if len(r) == 4 and r[0] == r[1] == r[2] == r[3]:
+                fb["law_ok"] += 1
+            elif ex is not None:
+                fb["law_excused"][ex] = fb["law_excused"].get(ex, 0) + 1
+            elif is_f53:
+                fb["law_excused"]["F53"] = fb["law_excused"].get("F53", 0) + 1
+            else:
+                fb["law_violations"] += 1
+                fb_fail.append((prog, a, r, rep))
+    for prog, a, r, rep in fb_fail[:5]:
+        res.violation("a closed-after-capture function and its reloaded emission disagree (body uses the full built-in set)",
+                      {"kind": "impl-law", "program": prog, "args": [a],
+                       "observed": {"original": r[0], "reloaded": r[1], "re-emitted and reloaded": r[2] if len(r) > 2 else None,
+                                    "third re-emission": r[3] if len(r) > 3 else None},
+                       "expected": "all four equal (Coq: C05_emit_equiv_higher_order_full)", "classes": rep,
+                       "rerun": "./check C05 --replay <this file>"})
+    n_fb = 90 if tier == "quick" else len(fb_ok_idx)
+    fb_sel = sorted(rng.shuffle(list(fb_ok_idx))[:n_fb])
+    fb_mism = []
+    try:
+        allargs = sorted({a for i in fb_sel for a in fb_cases[i][2]})
+        terms = dict(zip(allargs, call_terms(h, allargs)))
+        exprs, keep = [], []
+        for i in fb_sel:
+            st_, _, val_ = fb_parsed[i]["VAL"].partition("] ")
+            calls_ = [terms[a] for a in fb_cases[i][2]]
+            if any(t is None for t in calls_):
+                continue
+            exprs.append("(emit_behaviour_full %s %s %s] %s [%s])" % (b(nanfix), b(dofix), st_, val_, "; ".join(calls_)))
+            keep.append(i)
+        outs_ = c.coq_eval_batch(REQ + ["Blots.EvalFull", "Blots.EmitRunFull"], "", exprs, "c05fb", shard=30)
+        for i, out in zip(keep, outs_):
+            if out is None:
+                fb["model_eval_failed"] += 1
+                continue
+            for (a, r, m) in zip(fb_cases[i][2], fb_parsed[i]["R"], out.split(" ")):
+                if "UNMODELLED" in m:
+                    fb["model_skipped_unmodelled"] += 1
+                elif m == r[0] + "/" + r[1]:
+                    fb["model_agree"] += 1
+                else:
+                    fb_mism.append((fb_cases[i][1], a, "/".join(r[:2]), m))
+    except c.BrokenTie as e:
+        res.tie_broken(e.what, e.detail)
+    fb["model_mismatch"] = len(fb_mism)
+    if fb_mism:
+        res.tie_broken("correspondence C05/EMIT-FULLBI: model (full dispatcher) and implementation disagree on %d calls" % len(fb_mism),
+                       "first: %r args %r\nimpl : %s\nmodel: %s" % fb_mism[0])
+    res.streams["EMIT-FULLBI"] = fb
     # functions over a non-empty `inputs` record, through the real binary only (the fresh program's inputs are the
     # first program's OUTPUTS, so a name left unresolved at emission reads something else there)
     inp_ok = inp_f54 = 0
@@ -625,6 +798,99 @@ def main(argv):
                           "(blots -i INPUTS prog1 | blots prog2 | blots prog2)",
                           {"kind": "cli-chain-inputs", "program": prog, "args": args, "inputs": INPUTS_JSON, "prog1": o1,
                            "prog2": o2 if isinstance(o2, dict) else str(o2), "prog2_again": o3 if isinstance(o3, dict) else str(o3)})
+    # the same family IN PROCESS, with a non-empty inputs record (harness header `//#inputs <json>`): the emitted
+    # text parsed by the real parser against the model's inlined AST (ties Emit.subst on `#name`), the four-generation
+    # law, and the model's evaluation of original / reloaded with that inputs record.  `#` members are counted under F54
+    # while it is open and strict once it is fixed.
+    INP_ARGS = {"f = (x, inputs?) => [x, inputs]": ["1", "1, 2"]}
+    inp_extra = [("f = x => #rate", ["0"]), ("f = x => [#rate, inputs.rate, x] ", ["1"]), ("f = x => -#rate + #fees[0]!", ["1"]),
+                 ("f = x => (inputs => [#rate, x])({rate: 9})", ["1"]), ("f = x => do {\n  inputs = {rate: 7}\n  return [#rate, x]\n}", ["1"]),
+                 ("f = x => do {\n  r = #rate\n  inputs = {rate: r + x}\n  return #rate\n}", ["1"]),
+                 ("f = x => y => [#rate, x, y]", ["1)(2"]), ("g = y => #rate * y\nf = x => [g(x), g]", ["2"]),
+                 ("f = x => {rate: #rate, t: #tag, m: #missing}", ["0"]), ("f = x => if #rate > x then #fees else #cfg.deep", ["1", "3"])]
+    icases = [("inputs/%d" % k, "//#inputs " + INPUTS_JSON + "\n" + prog, args)
+              for k, (prog, args) in enumerate(INPUTS_PROGS + inp_extra)]
+    irust = rust_emit(h, icases)
+    iparsed = [fields(o) for o in irust]
+    istat = {"cases": len(icases), "with_inref": sum(1 for _, p_, _ in icases if "#rate" in p_ or "#fees" in p_ or "#tag" in p_ or "#cfg" in p_),
+             "ast_agree": 0, "ast2_agree": 0, "law_checked": 0, "law_ok": 0, "in_known_class_F54": 0,
+             "behaviour_agree": 0, "behaviour_skipped_unmodelled": 0}
+    try:
+        ireports = model_reports(iparsed, "c05i")
+    except c.BrokenTie as e:
+        res.tie_broken(e.what, e.detail)
+        ireports = [None] * len(icases)
+    imism, ibeh = [], []
+    for (kind, prog, args), d, rep in zip(icases, iparsed, ireports):
+        body_has_ref = "#" in prog.split("\n", 1)[1]
+        f54_excused = body_has_ref and "F54" in open_ids
+        if "VAL" not in d or rep is None:
+            if not f54_excused:
+                res.tie_broken("C05/EMIT-INPUTS: a program of the inputs family did not produce a function", "%r -> %s" % (prog, irust[icases.index((kind, prog, args))][:200]))
+            continue
+        a1 = rep.split(" A1")[1][:4]
+        a2 = rep.split(" A2")[1][:4]
+        if a1[want] == "1":
+            istat["ast_agree"] += 1
+            if a2[want] == "1":
+                istat["ast2_agree"] += 1
+            elif not f54_excused:
+                imism.append((prog, "body of the reloaded function (AST2)", rep))
+        elif f54_excused:
+            istat["in_known_class_F54"] += 1
+            continue
+        else:
+            imism.append((prog, "parse of the emitted text (AST1)", rep))
+            continue
+        if d.get("PORT") == "1":
+            for a, r in zip(args, d["R"]):
+                istat["law_checked"] += 1
+                if len(r) == 4 and r[0] == r[1] == r[2] == r[3]:
+                    istat["law_ok"] += 1
+                elif f54_excused:
+                    istat["in_known_class_F54"] += 1
+                elif "FN(" in r[0]:
+                    pass                  # a returned function prints its cell name; compared through its calls only
+                else:
+                    res.violation("a function that mentions `inputs` / #name and its reloaded emission disagree (in process, "
+                                  "non-empty inputs record)",
+                                  {"kind": "impl-law", "program": prog, "args": [a], "observed": r, "expected": "all four equal"})
+        if "INP" in d and not f54_excused:
+            ibeh.append((prog, args, d))
+    if imism:
+        res.tie_broken("correspondence C05/EMIT-INPUTS: the AST of the emitted text differs from the model's inlined AST on %d of %d functions"
+                       % (len(imism), len(icases)), "first: %r\nwhat: %s\nreport: %s" % imism[0])
+    if ibeh:
+        try:
+            allargs = sorted({a for _, args, _ in ibeh for a in args})
+            terms = dict(zip(allargs, call_terms(h, allargs)))
+            exprs, keep = [], []
+            for prog, args, d in ibeh:
+                st_, _, val_ = d["VAL"].partition("] ")
+                calls = [terms[a] for a in args]
+                if any(t is None for t in calls):
+                    continue
+                exprs.append("(emit_behaviour_in %s %s %s %s] %s [%s])" % (d["INP"], b(nanfix), b(dofix), st_, val_, "; ".join(calls)))
+                keep.append((prog, args, d))
+            outs = c.coq_eval_batch(REQ, "", exprs, "c05ib", shard=10)
+            bm = []
+            for (prog, args, d), out in zip(keep, outs):
+                if out is None:
+                    bm.append((prog, args, "-", "model evaluation failed"))
+                    continue
+                for a, r, m in zip(args, d["R"], out.split(" ")):
+                    if "UNMODELLED" in m:
+                        istat["behaviour_skipped_unmodelled"] += 1
+                    elif m == r[0] + "/" + r[1]:
+                        istat["behaviour_agree"] += 1
+                    else:
+                        bm.append((prog, a, "/".join(r[:2]), m))
+            if bm:
+                res.tie_broken("correspondence C05/EMIT-INPUTS-behaviour: model and implementation disagree on %d calls" % len(bm),
+                               "first: %r args %r\nimpl : %s\nmodel: %s" % bm[0])
+        except c.BrokenTie as e:
+            res.tie_broken(e.what, e.detail)
+    res.streams["EMIT-INPUTS"] = dict(istat, inputs=INPUTS_JSON, F54_open="F54" in open_ids)
     stats["cli_inputs_chains"] = len(INPUTS_PROGS)
     stats["cli_inputs_chains_ok"] = inp_ok
     stats["cli_inputs_chains_in_known_class_F54"] = inp_f54
